@@ -187,7 +187,7 @@ void Body(Src& s, Stats& st, bool tsan_variant)
             else if (pre == 2) w.Connect(true);
             else if (pre == 3) w.Submit(step);
             else if (pre == 4) { uint64_t b = Stamp(); tmpl->interruptWait(); w.interrupts.push_back(IntEv{b, Stamp()}); }
-            else if (pre == 5) w.Advance(s.pick<int64_t>({1, 61, 1201}));
+            else if (pre == 5) w.Advance(s.pick<int64_t>({1, 61, 1201, 700, 1140})); // start + 60 + 1140 = exactly 20 min: not yet "over 20 minutes"
             // -- the waiter
             WaitResult wr;
             node::BlockWaitOptions opts;
